@@ -76,6 +76,12 @@ def classify_crash(returncode, stderr):
             frames.append("%s %s:%s" % (fn.split("(")[0], os.path.relpath(path, REPO) if path.startswith(REPO) else path, line))
         if len(frames) >= 3:
             break
+    if s and s.group(1) == "AddressSanitizer" and ("allocator is out of memory" in s.group(2) or "allocation-size-too-big" in s.group(2)
+                                                    or "requested allocation size" in s.group(2)):
+        # operator new under AddressSanitizer reports a refused allocation and ends
+        # the process where the real allocator throws std::bad_alloc (a permitted
+        # outcome): nothing can be concluded from such a run
+        return {"outcome": "RESOURCE", "oracle": "allocation-refused", "detail": s.group(2)[:200], "hash": "", "nontrivial": False}
     if s:
         kind = s.group(2).split()[0] if s.group(2) else "error"
         if s.group(1) == "AddressSanitizer" and s.group(2).startswith("attempting"):
@@ -206,7 +212,8 @@ class Worker(threading.Thread):
             self.deaths.append({"index": idx_in_flight, "seed": seed_in_flight, "rc": rc, "stderr": err[-6000:],
                                 "runs_before": done})
             pool.partial_runs += done
-            pool.note_failure()
+            if classify_crash(rc, err).get("outcome") != "RESOURCE":
+                pool.note_failure()
             self.start_index = idx_in_flight + pool.workers
             self.restarts += 1
 
@@ -331,6 +338,8 @@ def process_candidates(prop, tier, candidates, log):
             infra.append("seed %s: %s/%s seen in the batch did not reproduce in a fresh process"
                          % (seed_hex, first.get("outcome"), first.get("oracle")))
             continue
+        if res1.get("outcome") == "RESOURCE":
+            continue
         if res1.get("outcome") == "INFRA":
             infra.append("seed %s: %s" % (seed_hex, res1.get("detail")))
             continue
@@ -449,7 +458,11 @@ def run_check(prop, target, tier, cfg, describe, extra_targets=None):
                 continue
             seed_hex = "%016x" % d["seed"]
             plan = gen_plan(w.pool.exe, d["seed"], tier)
-            candidates.append((seed_hex, plan, classify_crash(d["rc"], d["stderr"]), w.pool.exe))
+            first = classify_crash(d["rc"], d["stderr"])
+            if first.get("outcome") == "RESOURCE":
+                tot["misc"]["runs_ended_by_a_refused_allocation"] = tot["misc"].get("runs_ended_by_a_refused_allocation", 0) + 1
+                continue
+            candidates.append((seed_hex, plan, first, w.pool.exe))
     # every harness gets its turn among the first candidates
     by_exe = {}
     for c in candidates:
